@@ -176,6 +176,24 @@ fn short_path(file: &str) -> String {
     f.to_string()
 }
 
+/// Runs `f` with panic capture (used by checks that enumerate many cases inside one run).
+/// Err carries the panic message and location; harness-side budget panics are reported as such.
+pub fn catch<T>(f: impl FnOnce() -> T) -> Result<T, PanicInfo> {
+    LAST_PANIC.with(|lp| *lp.borrow_mut() = None);
+    match std::panic::catch_unwind(std::panic::AssertUnwindSafe(f)) {
+        Ok(v) => Ok(v),
+        Err(_) => Err(LAST_PANIC.with(|lp| lp.borrow_mut().take()).unwrap_or_default()),
+    }
+}
+
+pub fn panic_site(pi: &PanicInfo) -> String {
+    format!("{}:{}", short_path(&pi.file), pi.line)
+}
+
+pub fn panic_in_harness(pi: &PanicInfo) -> bool {
+    is_harness_path(&pi.file) && !pi.msg.contains(BUDGET_PANIC)
+}
+
 pub enum ExecOutcome {
     Ok,
     Fails(Vec<Fail>),
@@ -369,6 +387,16 @@ pub fn run_property(p: &dyn Property, opt: &Options) -> i32 {
         return 2;
     }
 
+    if std::env::var("VERIF_CLASSES").is_ok() {
+        let mut classes: BTreeMap<(String, String), (u64, String)> = BTreeMap::new();
+        for (_, _, f) in agg.fails.iter() {
+            let e = classes.entry((f.site.clone(), f.witness.clone())).or_insert((0, f.detail.clone()));
+            e.0 += 1;
+        }
+        for ((site, wit), (n, detail)) in &classes {
+            println!("CLASS {} [{}] x{} :: {}", site, wit, n, detail.chars().take(260).collect::<String>());
+        }
+    }
     // triage failures: group by (site, witness); first (lowest run index) of each class is handled
     let known = load_known(&opt.root);
     let mut seen_classes: Vec<(String, String)> = vec![];
